@@ -201,6 +201,28 @@ func (t tagEnc) Encode(v interface{}) error {
 	return err
 }
 
+// reentObj logs through other loggers while it is being encoded (user code inside a marshaler that
+// logs: a nested encode runs between the outer entry's fields).
+type reentObj struct{ e *env }
+
+func (r reentObj) MarshalLogObject(enc zapcore.ObjectEncoder) error {
+	enc.AddInt("before", 1)
+	r.e.get("Jc").Info("m-inner-json", zap.Reflect("ri", pair{9, "<in>"}), zap.Namespace("inner"))
+	r.e.get("Cc").Info("m-inner-console", zap.Reflect("ri", pair{10, "in"}))
+	_ = enc.AddReflected("mid", pair{11, "mid"})
+	enc.AddString("after", "x")
+	return nil
+}
+
+// reentJSON logs (with a reflected field of its own) from inside MarshalJSON, i.e. while the outer
+// encoder's reflection machinery is at work.
+type reentJSON struct{ e *env }
+
+func (r reentJSON) MarshalJSON() ([]byte, error) {
+	r.e.get("Jc").Info("m-inner-from-MarshalJSON", zap.Reflect("ri", pair{12, "deep"}))
+	return []byte(`{"reent":true}`), nil
+}
+
 type failObj struct{}
 
 func (failObj) MarshalLogObject(enc zapcore.ObjectEncoder) error {
@@ -331,6 +353,12 @@ var ops = []op{
 	}},
 	{"carr", "console logger whose time and level columns are arrays built by the column callbacks (two structured columns in one line)", func(e *env) {
 		e.get("Ca").Warn("m-carr", zap.Int("a", 1))
+	}},
+	{"reent", "JSON: a marshaler that logs through two other loggers (JSON and console, reflected values) while it is being encoded", func(e *env) {
+		e.get("J").Info("m-reent", zap.Reflect("r0", pair{1, "o"}), zap.Object("o", reentObj{e}), zap.Reflect("rj", reentJSON{e}), zap.Reflect("r1", pair{2, "o"}))
+	}},
+	{"creent", "console: the same marshaler in a console entry and in a derived context", func(e *env) {
+		e.get("C").With(zap.Object("ctx", reentObj{e})).Info("m-creent", zap.Object("o", reentObj{e}), zap.Int("a", 1))
 	}},
 	{"cc", "console: logger with namespaced context", func(e *env) { e.get("Cc").Info("m-cc", zap.Int("k", 5)) }},
 	{"ccnof", "console: entry without fields through the logger with namespaced context (the stored context is used as it is)", func(e *env) { e.get("Cc").Info("m-ccnof") }},
